@@ -142,6 +142,22 @@ func aminoDrive(args []string) error {
 		long, nrand, perLen = 300000, 400, 60
 	}
 
+	// the very first call made in this process is TranslateReadingFrames (nothing has "warmed up" Translate yet);
+	// with parts, every part's process starts with it
+	tw.emit(aminoCall(aminoReq{Op: "frames", Seq: sints("ATGGCCTAAtgacgt")}))
+	if thorough() && part == 0 {
+		// inputs beyond 2^20 bases: valid, and with the foreign byte in the very first / the very last codon
+		big := randOver(r, []byte(lettersDNA), 3*(1<<19)+3)
+		tw.emit(aminoCall(aminoReq{Op: "translate", Dst: []int{'x'}, Cap: 0, Src: big}))
+		b1 := append([]int{}, big...)
+		b1[1] = 'N'
+		tw.emit(aminoCall(aminoReq{Op: "translate", Dst: nil, Cap: 0, Src: b1}))
+		b2 := append([]int{}, big...)
+		b2[len(b2)-1] = 'N'
+		tw.emit(aminoCall(aminoReq{Op: "translate", Dst: nil, Cap: 0, Src: b2}))
+		tw.emit(aminoCall(aminoReq{Op: "frames", Seq: big[:1<<20+1]}))
+	}
+
 	// all 64 codons x 8 case patterns
 	up, lo := "ACGT", "acgt"
 	for i := 0; i < 4; i++ {
